@@ -123,7 +123,7 @@ pub fn run(ctx: &Ctx) -> i32 {
     let pa = Envelope::new_assertion("sp", "so");
     // hosts: without the assertion, already holding its PLAIN copy, already holding a salted copy - a salted add must add a new element every time
     let host0 = Envelope::new("host").add_assertion("k", "v");
-    let hosts: Vec<(&str, Envelope)> = vec![("fresh", host0.clone()), ("holds-plain-copy", host0.add_assertion_envelope(pa.clone()).unwrap()), ("holds-salted-copy", host0.add_assertion_envelope(pa.add_salt_instance(crate::explore::fixed_salt())).unwrap()), ("bare-leaf", Envelope::new("host"))];
+    let hosts: Vec<(&str, Envelope)> = vec![("fresh", host0.clone()), ("holds-plain-copy", host0.add_assertion_envelope(pa.clone()).unwrap()), ("holds-salted-copy", host0.add_assertion_envelope(pa.add_salt_instance(crate::explore::fixed_salt())).unwrap()), ("bare-leaf", Envelope::new("host")), ("big-host-4KB", Envelope::new("h".repeat(4000)).add_assertion("k", "v")), ("wide-host-40-assertions", (0..40).fold(Envelope::new("host"), |e, i| e.add_assertion(format!("k{i:02}"), i)))];
     for (hn, host) in &hosts {
     let horig = bind::observe(host);
     let horig = if let O::Node(..) = horig { horig } else { O::Node([0; 32], Box::new(horig), vec![]) };
